@@ -34,7 +34,7 @@ def build(prop):
     qs.append(mk(prop, 0, 4, 4, 0, 9, 1, 0, True, opk=3)); qs.append(mk(prop, 0, 4, 4, 0, 9, 1, 0, True, opk=2))   # underflow with unequal siblings: shift from the fuller side
     for opk in (0, 1, 2, 3): qs.append(mk(prop, 0, 4, 4, 0, 8, 1, 0, True, opk=opk))      # emptying the tree and growing the first leaf
     for opk in (0, 1, 2): qs.append(mk(prop, 0, 4, 4, 1, 1, 1, 0, True, opk=opk))          # binary in-node search
-    for opk in (0, 2): qs.append(mk(prop, 3, 4, 4, 0, 7, 1, 0, True, opk=opk))            # multimap, duplicate run (the 7-fold run of prefix 6: measured time-out at 3600 s, thorough tier)
+    for opk in (0, 2): qs.append(mk(prop, 3, 4, 4, 0, 7, 1, 0, False, opk=opk))            # multimap, duplicate run: measured 21 M variables / memory-out -> thorough tier (the per-key value-multiset comparison of the harness is the expensive part)
     for opk in (0, 1, 2, 3, 5): qs.append(mk(prop, 2, 4, 4, 0, 1, 1, 1, True, opk=opk))  # map: whole-tree operations
     for bulk in (0, 1, 4, 5, 6, 9): qs.append(mk(prop, 2, 4, 4, 0, 1, 1, 1, bulk == 5, opk=4, bulk=bulk))   # bulk_load of a symbolic sorted range of enumerated length
     # thorough: containers x capacity pairs x both searches x scripts, one operation kind per query; two symbolic operations for (4,4)
